@@ -91,6 +91,12 @@ claimed = {
   text="Decides structural clauses of the cmap statement: (tabformats) every subtable format cmap.Decode lets through has an entry in cmap.decoders, which is never modified, so Get/GetNoLang/GetBest never call a nil function for decoded tables (the two map-call sites are reviewed entries bound to this re-checked condition); (bestorder) GetBest's candidate list, evaluated from the literal, tries full-Unicode (3,10),(0,4) before BMP (3,1),(0,3) before legacy (1,0) and returns the first that decodes; (mapdet) Format4/Format12/Table.Encode, GetNoLang and InstallCMap do not depend on map iteration order (keys sorted with total comparators before emitting); (bigendian) all 34 multi-byte reads/writes in package cmap are big-endian; (sortfirst, narrowarith). Level 'other'.",
   note="Trusted: go/types, go/ssa, the classification of (platform, encoding) pairs into full/BMP/legacy (spec knowledge encoded in the checker). Not covered: correctness of the format-4 segmentation and idRangeOffset arithmetic, format-12 run detection, agreement with an independent decoder — value-level (the independent seeds that change such arithmetic are not detected).",
   ref="DESIGN.md §4 C09"),
+ "C10": dict(
+  technique="static sort (old/new glyph-id numbering) dataflow on go/ssa over the subsetter, closure-pairing rule, who-may-write effect analysis for the source font, paired-append rule",
+  engine="gidsort",
+  text="Decides structural clauses of the Subset statement: (gidsort) in the subsetter every glyph id stored into a rebuilt table (map keys, slice elements, struct fields of glyf/gtab/cmap values) carries the NEW numbering — values are sorted old/new by provenance (s.newGid lookups, loop indices over the retained list = new; loop values, source-table keys = old) and cmap lookups are made on the source font; (closurepair) a component appended to the retained list is recorded under its own old id; (dropped) every rebuilt subtable is appended to the result; (pairedappend) CFF Private and FontMatrices are extended in step; (encodingpos) the CFF subset encoding is filled code by code from the original; (readonly) Font.Subset/Outlines.Subset/FixComponents do not write memory reachable from the source font (effects engine); (covorder) coverage indices of rebuilt subtables are not assigned in map order — two genuine violations listed as known findings. Level 'other'.",
+  note="Trusted: go/types, go/ssa, the provenance table (which expressions introduce old/new ids). Not covered: that the closure is complete for GSUB-reachable glyphs, value-level correctness of loca/hmtx re-indexing, CID charset arithmetic — value-level.",
+  ref="DESIGN.md §3 E10, §4 C10"),
  "C13": dict(
   technique="static writer/reader type agreement for CFF DICT operators on go/ssa (stored Go type vs typed getter, omitted-default vs reader default), order-sensitivity analysis, big-endian rule",
   engine="dictpair",
@@ -143,6 +149,7 @@ engines = [
  {"name": "parserrules", "path": "sfntlint/c17.go, sfntlint/narrow.go", "serves_properties": ["C17"], "kind_free_text": "who-may-write, atomic refill, seek-first, error/no-data rules for parser.Parser"},
  {"name": "dslagree", "path": "sfntlint/c19.go", "serves_properties": ["C19"], "kind_free_text": "parser/printer table agreement, goroutine and channel discipline, loop-shape rules (E11)"},
  {"name": "cmaprules", "path": "sfntlint/c09.go", "serves_properties": ["C09"], "kind_free_text": "format table agreement, subtable preference order"},
+ {"name": "gidsort", "path": "sfntlint/c10.go", "serves_properties": ["C10"], "kind_free_text": "old/new glyph-id sort dataflow, closure pairing, paired append, source-font read-only (E10)"},
  {"name": "dictpair", "path": "sfntlint/c13.go", "serves_properties": ["C13"], "kind_free_text": "CFF DICT operator type/default agreement (E9-DICT)"},
  {"name": "namerules", "path": "sfntlint/c14.go", "serves_properties": ["C14"], "kind_free_text": "inverse/injective literal tables, purity, x-extension, UTF-16 delegation, post/name rules (E9-TAB)"},
  {"name": "mapdet", "path": "sfntlint/mapdet.go, sfntlint/props_det.go", "serves_properties": ["C01", "C07", "C08", "C09", "C13", "C15", "C20"], "kind_free_text": "order-sensitivity analysis of map iteration, clock and scheduling sources (E5)"},
